@@ -84,6 +84,16 @@ def run(ctx, extra_profiles=()):
         extra_cov = dict(pool_foreign_puts=st["extra"].get("foreign_puts", 0), pool_events_validated=ptot["lines"])
         tot["lines"] += ptot["lines"]
         tot["judged"] += ptot["judged"]
+    if ctx.prop == "C05":      # value clause: FloatAsFloat preserves values (exact / nearest float32), never clips
+        import num_family
+        st = ctx.record("floatfloat")
+        nm, ntot = num_family.validate_num(ctx, [st])
+        ctx.note("FloatAsFloat values: %d events validated against Num.tla, %d mismatching" % (ntot["lines"], ntot["bad"]))
+        v, kn, other = num_family.judge(ctx, nm, None)
+        extra_viol += num_family.report(ctx, v, kn, other, base=2000)
+        extra_cov = dict(floatfloat_points_validated=ntot["judged"], floatfloat_instantiations=st["types"])
+        tot["lines"] += ntot["lines"]
+        tot["judged"] += ntot["judged"]
     rc = finish(ctx, mc, stats, mm, tot, extra_cov=extra_cov, extra_viol=extra_viol)
     return 1 if (rc or extra_viol) else 0
 
